@@ -294,6 +294,21 @@ func c05Mutations(r *rand.Rand, b []byte, dense bool, emit func([]byte, string))
 			emit(m, "field-corrupted")
 		}
 	}
+	// two-byte fields at the top of their range (16-bit / 12-bit / 10-bit lengths: sums with a constant overflow there)
+	lim2 := len(b)
+	if !dense && lim2 > 200 {
+		lim2 = 200
+	}
+	for i := 0; i+1 < lim2; i++ {
+		for _, v := range [][2]byte{{0xff, 0xff}, {0xff, 0xfc}, {0x0f, 0xff}, {0x03, 0xff}} {
+			if !dense && i >= 24 && r.Intn(2) != 0 {
+				continue
+			}
+			m := append([]byte(nil), b...)
+			m[i], m[i+1] = m[i]|v[0], v[1]
+			emit(m, "wide-field-extreme")
+		}
+	}
 	for k := 0; k < 6; k++ {
 		if len(b) == 0 {
 			break
